@@ -464,22 +464,21 @@ C01_CURATED = [
 
 
 class C01(Spec):
-    level_text = ('Full over the model, up to its four named failure outcomes. Second sentence: C01_callback_irrelevant (for every fuel, '
-                  'source, option values and session, rendering with and without a callback gives the same HTML or the same failure, the same '
-                  'diagnostic texts, and sessions equal in everything but the callback flag -- the relational theorem rel_doc_render over the '
-                  'whole block layer), C01_callback_irrelevant_history. First sentence: C01_raises_only with C01_reachable_invariant -- from every '
-                  'session reachable through the API (option text free of U+0000..2), for every source and fuel, a failure of render is one of: '
-                  'ExIntTooLong (parameter number of more than 4300 digits: known finding), ExPopEmpty (list-id stack of a container attached '
-                  'to a list item: known finding), ExUnsupported (author pattern outside the modelled regex subset: such cases are skipped by '
-                  'the comparison), ExFilter (the indented / macro-definition content filter pattern not matching what its block pattern '
-                  'matched: never observed, not excluded by proof). Proved unreachable: re.error, a non-participating group at every group '
-                  'access, an index into an empty match (no line / list / block pattern of the generated tables matches the empty string or a '
-                  'lone backslash; the paragraph pattern takes at least one character), an empty reader wherever the cursor is indexed, the '
-                  'quote-definition assert, int() of a malformed parameter number, an empty parameter list, the placeholder pop '
-                  '(C01_spans_never_raises, C01_inline_no_underflow, C01_reachable_env_ok). Also C01_plain_total, C01_update_total, '
-                  'C01_api_reduces_to_document, C01_invariants. Outside the model: interpreter recursion depth (the model has Fuel where Python '
-                  'has RecursionError: 4 known findings), observed on the implementation only; model/implementation are compared on ok / raise '
-                  'kind / timeout.')
+    level_text = ('Full over the model, up to its three named failure outcomes. First sentence: C01_raises_only with C01_reachable_invariant -- '
+                  'from every session reachable through the API (option text free of U+0000..2), for every source and fuel, a failure of render '
+                  'is one of: ExIntTooLong (parameter number of more than 4300 digits: known finding), ExUnsupported (author pattern outside the '
+                  'modelled regex subset: such cases are skipped by the comparison), ExFilter (the indented / macro-definition content filter '
+                  'pattern not matching what its block pattern matched: never observed, not excluded by proof). Proved unreachable: re.error, '
+                  'a non-participating group at every group access, an index into an empty match (no line / list / block pattern of the '
+                  'generated tables matches the empty string or a lone backslash; the paragraph pattern takes at least one character), an empty '
+                  'reader wherever the cursor is indexed, the quote-definition assert, int() of a malformed parameter number, an empty '
+                  'parameter list, the placeholder pop, and -- after the repair bd5147e -- the pop of the list-id stack (ghost-stack Hoare '
+                  'triples over the list fixpoint) (C01_spans_never_raises, C01_inline_no_underflow, C01_reachable_env_ok). Second sentence: '
+                  'C01_callback_irrelevant (for every fuel, source, option values and session, rendering with and without a callback gives the '
+                  'same HTML or the same failure, the same diagnostic texts, and sessions equal in everything but the callback flag), '
+                  'C01_callback_irrelevant_history. Also C01_plain_total, C01_update_total, C01_api_reduces_to_document, C01_invariants. '
+                  'Outside the model: interpreter recursion depth (the model has Fuel where Python has RecursionError: 4 known findings), '
+                  'observed on the implementation only; model/implementation are compared on ok / raise kind / timeout.')
     rule = ('token-soup histories with legal and illegal option values, degenerate quote/replacement/block definitions, repeated '
             'elements; each also run without callback; non-trivial = tag other than <p>, diagnostic or raise')
     state_keys = []
